@@ -268,6 +268,24 @@ def run(st, tier, seed):
                 res.count("mutant:" + ("accepted" if out is not None else "rejected"))
                 if out is not None:
                     judge(out, dict(inp0, files={"top.comp": mt}, mutation=what, mutated_file="top.comp"), what, redo=lambda: des_out)
+    # directed: a domain-level structure whose paired domains have DIFFERENT lengths expands to an unbalanced string; whatever the
+    # optimisation parameter says ([no-opt] included) it must be rejected, or what is emitted must be balanced
+    for k in range(8 if tier == "quick" else 80):
+        la, lb = rng.randint(1, 8), rng.randint(1, 8)
+        if la == lb:
+            lb += rng.randint(1, 3)
+        optx = ["[no-opt] ", "[0nt] ", "", "[2nt] ", "[no-opt]\t"][k % 5]
+        text = ('declare component Top: ->\nsequence a = "%dN"\nsequence b = "%dN"\nsequence c = "4N"\nstrand A = a c\nstrand B = c* b\n'
+                'structure %sG = A + B : domain %s\n' % (la, lb, optx, rng.choice(["(. + .)", "((+))", "(.+.)"])))
+        b = progen.Bundle(); b.texts["top.comp"] = text; b.entry = "top"
+        with core.scratch("pepper_c09d_") as d:
+            progen.write_bundle(b, d)
+            out = compile_dir(d, "top", [], [])
+            des_out = compile_dir(d, "top", [], [], "des") if out is not None else None
+            res.evaluations += 1
+            res.count("directed:domain-level-pair-of-different-lengths:" + ("accepted" if out is not None else "rejected"))
+            if out is not None:
+                judge(out, {"files": b.texts, "entry": "top", "includes": []}, "paired domains of lengths %d and %d" % (la, lb), redo=lambda: des_out)
     # directed: number of instance arguments vs number of template parameters.  The entry file of a generated program gets two
     # (unused) parameters; it is compiled at top level with 2 / 1 / 3 arguments and, wrapped into a system, as an instance with
     # (1, 2) / (1) / (1, 2, 3) / ().  Wherever the numbers differ the compiler must not produce output.
